@@ -51,7 +51,7 @@ func (w *world) wires() string {
 
 // resolution is what the abstract protocol leaves open and the real code decided in this step:
 // was a head update broadcast, was a request emitted, which response batches were sent.
-func (w *world) resolution() string {
+func (w *world) resolution(root int) string {
 	bh, bq := 0, 0
 	var batches []string
 	for _, m := range w.emitted {
@@ -64,7 +64,7 @@ func (w *world) resolution() string {
 			batches = append(batches, ints(m.heads)+"/"+ints(m.changes))
 		}
 	}
-	s := fmt.Sprintf(" %d %d", bh, bq)
+	s := fmt.Sprintf(" %d %d %d", bh, bq, root)
 	if len(batches) > 0 {
 		s += " " + strings.Join(batches, " ")
 	}
@@ -74,17 +74,19 @@ func (w *world) resolution() string {
 // after runs the model on the op, observes the acting replica and evaluates the direct oracle.
 func (w *world) after(op string, actor int, stream string) {
 	w.resolveEmitted()
-	line := op
-	if strings.HasPrefix(op, "dlv ") {
-		line += w.resolution()
-	}
-	w.ops = append(w.ops, line)
 	t0 := time.Now()
 	o, err := w.observe(actor)
 	tObserve += time.Since(t0)
 	if err != nil {
 		w.r.Fatal("observe: " + err.Error())
 	}
+	line := op
+	if strings.HasPrefix(op, "dlv ") {
+		// what the abstract protocol leaves open: broadcast / request / batches, and where the
+		// receiver's in-memory root went
+		line += w.resolution(o.root)
+	}
+	w.ops = append(w.ops, line)
 	// direct oracle (needs no model): closure of what is stored, of what is advertised
 	if d := w.closureDefect(o); d != "" {
 		w.violate("sync.closure", fmt.Sprintf("replica %d %s", actor, d))
@@ -142,7 +144,11 @@ func (w *world) stepAdd(i int, snap bool) {
 		w.r.Count("op.add")
 	}
 	info := w.chs[id]
-	w.after(fmt.Sprintf("add %d %d %s", i, id, ints(info.parents)), i, "sync.add")
+	sn := 0
+	if snap {
+		sn = 1
+	}
+	w.after(fmt.Sprintf("add %d %d %s %d %d", i, id, ints(info.parents), sn, info.snap), i, "sync.add")
 }
 
 func (w *world) take(m *message) {
@@ -262,7 +268,7 @@ func (w *world) drain(mode int) bool {
 	return true
 }
 
-func (w *world) finalState() (sets, heads []string) {
+func (w *world) finalState() (sets, heads, roots []string) {
 	for i := range w.reps {
 		o, err := w.observe(i)
 		if err != nil {
@@ -273,6 +279,7 @@ func (w *world) finalState() (sets, heads []string) {
 		}
 		sets = append(sets, ints(o.stored))
 		heads = append(heads, ints(o.heads))
+		roots = append(roots, fmt.Sprint(o.root))
 		// a fresh tree built from what the replica persisted must show the same heads
 		if rh, err := w.reopenHeads(i); err != nil {
 			w.violate("sync.reopen", fmt.Sprintf("replica %d: cannot rebuild the tree from its storage: %v", i, err))
@@ -327,7 +334,7 @@ func (w *world) antiEntropy(rounds int) {
 	if !w.drain(mode) {
 		return
 	}
-	sets, heads := w.finalState()
+	sets, heads, roots := w.finalState()
 	if w.failed {
 		return
 	}
@@ -349,7 +356,7 @@ func (w *world) antiEntropy(rounds int) {
 	if !w.nomodel {
 		var parts []string
 		for i := range sets {
-			parts = append(parts, sets[i]+" "+heads[i])
+			parts = append(parts, sets[i]+" "+heads[i]+" @"+roots[i])
 		}
 		w.ops = append(w.ops, "state")
 		w.check("sync.final", w.r.Ask("state"), "ok "+strings.Join(parts, " ; "))
